@@ -7,14 +7,29 @@ Four parts (shares of the budget n, a "case" is one compared conversion):
     same configuration converting d (every prefix of a history is a history, so every step is a check).
     Documents come from gen/docs.py: stateful constructs over small label pools, so that later documents use labels
     (link references, footnotes, abbreviations, header ids) which earlier ones defined.
-    A conversion that raises ends the history (histories containing a raising conversion are F-C11-1); footnotes'
-    UNIQUE_IDS is never set (documented to differ).
+    Footnotes' UNIQUE_IDS is never set (documented to differ).
+    RAISING conversions are part of the histories (F-C11-1 is fixed: nothing is suppressed).  About one step in eight is a
+    "raiser": a deeply nested document (nested bullet/ordered lists, definition lists, admonitions, md_in_html containers,
+    a list inside a footnote body; 20-90 levels, stateful constructs before and after it) converted under a recursion
+    limit lowered to 60-400 frames above the caller (RecursionError in the block parser or in the footnote tree
+    processor at a cost of milliseconds; now and then the real thing: a 400-level list under the default limit), or
+    a footnote definition inside a footnote body (RuntimeError in a tree processor).  A quarter of the histories also
+    carry one json-able option that makes documents containing the matching construct raise at another stage: wikilinks
+    build_url / footnotes SUPERSCRIPT_TEXT (inline patterns), footnotes BACKLINK_TITLE, toc slugify/separator, codehilite
+    pygments_style (preprocessor or tree processor), smarty substitutions, abbr glossary / toc permalink_title of the
+    wrong type (last tree processor).  Whatever raised, the NEXT step requires md.reset() == fresh as always; the raiser
+    step itself is not compared (whether a document just fits under a lowered limit may depend on one frame).
  2. ATTRIBUTE CENSUS at the end of every history: deep snapshot of everything reachable from the instance (all
     processors, patterns, extensions) after reset() against a fresh instance; attributes that differ and are not on
     ALLOW (established on the unchanged tree, see `census()`) are counted in dist['census_new'] and attached to a
     violation of the same history (a new attribute alone, without a behavioural difference, is not a violation).
  3. INTERLEAVING (~15 %).  Two or three differently configured instances, each with its own document sequence:
     constructing and using them interleaved (random schedule) must give each the results it gives alone.
+ 3b. SHARED-STATE CENSUS (once per call, one subprocess; gen/footprint.py).  In a fresh interpreter every module global
+    and class-level attribute (lists, dicts, sets included) of markdown.* is fingerprinted before and after CONSTRUCTING
+    an instance with each bundled extension alone (nothing is converted), with all of them, and after converting a
+    batch.  A location whose content changes and that is not on the allow-list of memo cells (oracle/c12.DYN_ALLOW) is
+    a channel by which creating/using one instance reaches every other instance: reported as a violation.
  4. HASH SEED / PROCESS (fixed small share).  A batch of (configuration, document) pairs is converted with fresh
     instances in three subprocesses with PYTHONHASHSEED = 0, 1, 12345 (each in a different order, which also exposes
     process-wide pollution by earlier instances) and in this process; all four must agree.
@@ -23,7 +38,9 @@ distinct = number of different (extension set, document) pairs whose conversion 
 were converted after a non-empty history (measured with a set).
 """
 import json, os, subprocess, sys
+from contextlib import contextmanager
 from gen import docs as D
+from gen.common import EXTENSIONS as C_EXT
 from gen import canon
 
 NEEDS_DRIVER = False
@@ -60,12 +77,30 @@ def nested_list(k):
 
 
 def _doc(d):
-    return nested_list(d['nested_list']) if isinstance(d, dict) else d
+    if isinstance(d, dict): return nested_list(d['nested_list']) if 'nested_list' in d else d['text']
+    return d
+
+
+@contextmanager
+def low_recursion(margin):
+    """lower the recursion limit to `margin` frames above the caller for the duration of one conversion"""
+    old = sys.getrecursionlimit()
+    depth = 0; f = sys._getframe()
+    while f is not None: depth += 1; f = f.f_back
+    try:
+        sys.setrecursionlimit(min(old, depth + margin)); yield
+    finally:
+        sys.setrecursionlimit(old)
 
 
 def observe(md, d):
-    """reset, convert and collect the side outputs; json-able"""
-    out = md.reset().convert(d)
+    """reset, convert and collect the side outputs; json-able.  `d`: a document, or a raiser entry
+    {'text': document, 'margin': frames} (converted under a lowered recursion limit) / {'nested_list': levels}"""
+    md.reset()
+    if isinstance(d, dict) and 'margin' in d:
+        with low_recursion(d['margin']): out = md.convert(d['text'])
+    else:
+        out = md.convert(_doc(d))
     return [out, getattr(md, 'toc', None), json.loads(json.dumps(getattr(md, 'toc_tokens', None))), json.loads(json.dumps(getattr(md, 'Meta', None)))]
 
 
@@ -87,8 +122,8 @@ def run_history(cfg, history, d):
     md = D.make(cfg)
     raised = False
     for h in history:
-        if _raised(observe_safe(md, _doc(h))): raised = True
-    return observe_safe(md, _doc(d)), observe_safe(D.make(cfg), _doc(d)), raised
+        if _raised(observe_safe(md, h)): raised = True
+    return observe_safe(md, d), observe_safe(D.make(cfg), d), raised
 
 
 def _fails(cfg, history, d):
@@ -106,6 +141,43 @@ def _shrink(cfg, history, d):
     return history
 
 
+DEEP = {
+    'ulist': lambda k: '\n'.join('    ' * i + '- x' for i in range(k)),
+    'olist': lambda k: '\n'.join('    ' * i + '%d. x' % (i + 1) for i in range(k)),
+    'mixlist': lambda k: '\n'.join('    ' * i + ('- x', '1. y', '* z', ':   d')[i % 4] for i in range(k)),
+    'deflist': lambda k: '\n'.join('    ' * i + 'T\n' + '    ' * i + ':   d' for i in range(k)),
+    'admonition': lambda k: '\n\n'.join('    ' * i + '!!! note' for i in range(k)) + '\n\n' + '    ' * k + 'x',
+    'md_in_html': lambda k: '\n'.join('<div markdown="1">' for i in range(k)) + '\n*x*\n' + '\n'.join('</div>' for i in range(k)),
+    'fnbody': lambda k: 'x[^1] y[^1]\n\n[^1]: a\n\n' + '\n'.join('    ' + '    ' * i + '- x' for i in range(k)),
+    'quotelist': lambda k: '\n'.join('> ' + '    ' * i + '- x' for i in range(k)),
+}
+
+# json-able options with which a document containing the matching construct raises (stage in the comment)
+HOSTILE_OPTS = [
+    ('wikilinks', {'build_url': 'notcallable'}),          # inline pattern (TypeError) on [[w]]
+    ('footnotes', {'SUPERSCRIPT_TEXT': '{x}'}),           # inline pattern (KeyError) on a footnote reference
+    ('footnotes', {'BACKLINK_TITLE': '%d %d'}),           # footnote tree processor, before inline (IndexError)
+    ('toc', {'slugify': 'notcallable'}),                  # toc tree processor (TypeError) on a header without id
+    ('toc', {'separator': '--'}),                         # toc tree processor (re.error)
+    ('codehilite', {'pygments_style': 'nope'}),           # fenced_code preprocessor / hilite tree processor (ClassNotFound; needs Pygments)
+    ('smarty', {'substitutions': {'ndash': 5}}),          # smarty tree processor, after prettify (IndexError) on --
+    ('abbr', {'glossary': {'HTML': 5}}),                  # unescape, the last tree processor (TypeError) on HTML
+    ('toc', {'permalink': True, 'permalink_title': 5}),   # unescape (TypeError) on a header
+]
+
+
+def gen_raiser(rng, cfg, counters):
+    """a history entry that is likely to raise, with stateful constructs around the part that raises"""
+    pre = D.document(rng, 1, 3, counters=counters); post = D.document(rng, 1, 2, counters=counters) if rng.random() < 0.6 else ''
+    k = rng.random()
+    if k < 0.12:
+        text = pre + '\n\n[^a]: [^b]: x\n\n[^c]: y\n\n[^a][^c] z[^b]\n\n' + post   # footnote definition inside a footnote body
+        return {'text': text, 'margin': 100000, 'family': 'fn_in_fn'}
+    fam = rng.choice(sorted(DEEP))
+    text = pre + '\n\n' + DEEP[fam](rng.choice([30, 40, 60, 90])) + '\n\n' + post
+    return {'text': text, 'margin': rng.choice([60, 80, 100, 150, 250]), 'family': fam}
+
+
 def replay(witness):
     return _fails(witness.get('config', {}), witness['history'], witness['doc'])
 
@@ -114,6 +186,8 @@ def replay_violation(v):
     inp = v['input']
     if inp.get('kind') == 'interleave':
         return bool(_interleave_check(inp['configs'], inp['seqs'], inp['schedule']))
+    if inp.get('kind') == 'shared_state':
+        return any([ns, attr] == inp['site'] for ns, attr, a, b, ph in _shared_state_new())
     if inp.get('kind') == 'hashseed':
         res = _hashseed_check([(v['config'], inp['doc'])] + [tuple(x) for x in inp.get('before', [])])
         return bool(res)
@@ -162,6 +236,20 @@ def census(rounds=300, seed=20240101):
             h.md.reset()
             for k, v in canon.diff(fresh, canon.snapshot(h, 'root')).items(): after_reset.setdefault(k, v)
     return {'after_convert': after_convert, 'after_reset': after_reset, 'new': sorted(set(after_reset) - ALLOW)}
+
+
+# ----------------------------------------------------------------------------------------------------------------------
+# shared-state census (process-wide state written by constructing / using instances)
+
+def _shared_state_new(batch=40):
+    """[(namespace, attribute, before, after, phase)] not on the allow-list, observed in a fresh interpreter"""
+    from gen import footprint
+    from oracle import c12
+    out = []
+    for phase, ns, attr, a, b in footprint.pristine(batch):
+        if (ns, attr) in c12.DYN_ALLOW or (ns, '*') in c12.DYN_ALLOW or c12._is_lazy_import(a, b): continue
+        out.append((ns, attr, a, b, phase))
+    return out
 
 
 # ----------------------------------------------------------------------------------------------------------------------
@@ -257,8 +345,8 @@ def _hashseed_check(pairs):
 # ----------------------------------------------------------------------------------------------------------------------
 
 def search(driver, rng, n):
-    dist = {'histories': 0, 'raised': 0, 'hist_len': {}, 'pieces': {}, 'ext_count': {}, 'census_new': {}, 'nonempty_toc': 0, 'nonempty_meta': 0,
-            'interleave_rounds': 0, 'hashseed_pairs': 0, 'empty_out': 0, 'options_set': 0}
+    dist = {'histories': 0, 'raised': {}, 'raisers': {}, 'hostile_option': 0, 'steps_after_raise': 0, 'hist_len': {}, 'pieces': {}, 'ext_count': {}, 'census_new': {}, 'nonempty_toc': 0, 'nonempty_meta': 0,
+            'interleave_rounds': 0, 'construct_only': 0, 'shared_state_written': [], 'hashseed_pairs': 0, 'empty_out': 0, 'options_set': 0}
     viol = []; samples = []; seen = set(); cases = 0
     n_hash = max(6, min(150, n // 12))
     n_inter = n * 15 // 100
@@ -271,29 +359,44 @@ def search(driver, rng, n):
         dist['histories'] += 1
         dist['ext_count'][len(cfg['extensions'])] = dist['ext_count'].get(len(cfg['extensions']), 0) + 1
         if cfg['extension_configs']: dist['options_set'] += 1
+        if rng.random() < 0.25:
+            e, o = rng.choice(HOSTILE_OPTS)
+            if e not in cfg['extensions']: cfg['extensions'].append(e)
+            cfg['extension_configs'][e] = dict(cfg['extension_configs'].get(e, {}), **json.loads(json.dumps(o)))
+            if e == 'codehilite' and rng.random() < 0.5 and 'fenced_code' not in cfg['extensions']: cfg['extensions'].append('fenced_code')
+            dist['hostile_option'] += 1
         try:
             md = D.make(cfg)
         except Exception as e:   # a configuration the code rejects is not a C11 matter
             dist['config_rejected:' + type(e).__name__] = dist.get('config_rejected:' + type(e).__name__, 0) + 1
             continue
-        history = []; hviol = []
+        history = []; hviol = []; raised_before = False
         for step in range(L + 1):
+            if step < L and rng.random() < 0.12:
+                # a raiser in the middle of the history: not compared itself, the following steps are
+                r = {'nested_list': 400} if rng.random() < 0.015 else gen_raiser(rng, cfg, dist['pieces'])
+                got = observe_safe(md, r)
+                fam = r.get('family', 'nested_list_400')
+                dist['raisers'][fam] = dist['raisers'].get(fam, 0) + 1
+                if _raised(got): dist['raised'][got[1]] = dist['raised'].get(got[1], 0) + 1; raised_before = True
+                history.append(r)
+                continue
             d = D.document(rng, counters=dist['pieces'])
             got = observe_safe(md, d)
-            if _raised(got):
-                dist['raised'] += 1   # F-C11-1 region begins here: end of this history
-                break
             want = observe_safe(D.make(cfg), d)
             cases += 1
-            if got[0] == '': dist['empty_out'] += 1
-            if got[1]: dist['nonempty_toc'] += 1
-            if got[3]: dist['nonempty_meta'] += 1
-            if history and got[0]: seen.add((tuple(sorted(cfg['extensions'])), d))
+            if not _raised(got):
+                if got[0] == '': dist['empty_out'] += 1
+                if got[1]: dist['nonempty_toc'] += 1
+                if got[3]: dist['nonempty_meta'] += 1
+            if history and got[0] and not _raised(got): seen.add((tuple(sorted(cfg['extensions'])), d))
+            if raised_before: dist['steps_after_raise'] += 1
             if got != want:
                 hviol.append({'input': {'history': list(history), 'doc': d}, 'config': cfg, 'observed': repr(got)[:1500], 'required': repr(want)[:1500], 'finding': None})
-            elif len(samples) < 3 and history and got[1]:
+            elif len(samples) < 3 and history and not _raised(got) and got[1]:
                 samples.append({'history': list(history), 'doc': d, 'config': cfg, 'observation': got})
             history.append(d)
+            if _raised(got): dist['raised'][got[1]] = dist['raised'].get(got[1], 0) + 1; raised_before = True   # the fresh instance must raise alike; the history goes on
         dist['hist_len'][len(history)] = dist['hist_len'].get(len(history), 0) + 1
         if history:
             try:
@@ -317,7 +420,14 @@ def search(driver, rng, n):
             try: D.make(c); cfgs.append(c)
             except Exception: pass
         seqs = [[D.document(rng, counters=dist['pieces']) for _ in range(rng.randint(1, 4))] for _ in range(k)]
-        schedule = [i for i in range(k) for _ in range(len(seqs[i]) + (1 if rng.random() < 0.3 else 0))]
+        # instances that are only CONSTRUCTED (never used) between the uses of the others: a single extension or a random set
+        for _ in range(rng.choice([0, 1, 1, 2])):
+            c = {'extensions': [rng.choice(C_EXT)], 'extension_configs': {}} if rng.random() < 0.6 else D.config(rng)
+            try: D.make(c)
+            except Exception: continue
+            cfgs.append(c); seqs.append([]); dist['construct_only'] += 1
+        k = len(cfgs)
+        schedule = [i for i in range(k) for _ in range(max(1, len(seqs[i]) + (1 if rng.random() < 0.3 else 0)))]
         rng.shuffle(schedule)
         bad = _interleave_check(cfgs, seqs, schedule)
         dist['interleave_rounds'] += 1
@@ -328,6 +438,18 @@ def search(driver, rng, n):
             i, j, x, y = bad[0]
             viol.append({'input': {'kind': 'interleave', 'configs': cfgs, 'seqs': seqs, 'schedule': schedule, 'instance': i, 'doc_index': j},
                          'config': cfgs[i], 'observed': 'interleaved: ' + repr(y)[:1200], 'required': 'alone: ' + repr(x)[:1200], 'finding': None})
+
+    # 3b: shared-state census in a fresh interpreter
+    try:
+        for ns, attr, a, b, phase in _shared_state_new():
+            dist['shared_state_written'].append('%s :: %s' % (ns, attr))
+            if len(viol) < 30:
+                viol.append({'input': {'kind': 'shared_state', 'site': [ns, attr], 'phase': phase}, 'config': {},
+                             'observed': 'process-wide state changed (%s): %s :: %s  %s -> %s' % (phase, ns, attr, a, b),
+                             'required': 'constructing or using an instance leaves module- and class-level state of markdown.* unchanged (memo cells excepted)', 'finding': None})
+        cases += 1
+    except Exception as e:
+        dist['shared_state_skipped'] = repr(e)[:300]
 
     # 4: hash seed / process
     pairs = []
